@@ -504,17 +504,54 @@ func checkPools(r *Run, rc *RuleCtx, T *types.Named, resetTo *ssa.Function) {
 		acq, put := p.Hmac.Func(sp.acq), p.Hmac.Func(sp.put)
 		poolOf := func(fn *ssa.Function, method string) *ssa.Global {
 			var g *ssa.Global
+			globalOf := func(v ssa.Value) *ssa.Global {
+				if ld, ok := v.(*ssa.UnOp); ok {
+					if gg, ok := ld.X.(*ssa.Global); ok {
+						return gg
+					}
+				}
+				return nil
+			}
 			eachInstr(fn, func(b *ssa.BasicBlock, i int, in ssa.Instruction) {
 				if isMethodCall(in, "sync", "Pool", method) {
-					if ld, ok := callArgs(in)[0].(*ssa.UnOp); ok {
-						if gg, ok := ld.X.(*ssa.Global); ok {
-							g = gg
+					if gg := globalOf(callArgs(in)[0]); gg != nil {
+						g = gg
+					}
+					return
+				}
+				// one-level helper that receives the pool and calls pool.<method> on that parameter
+				if c, ok := in.(*ssa.Call); ok {
+					if sc := c.Call.StaticCallee(); sc != nil && p.isLibFn(sc) {
+						for ai, a := range c.Call.Args {
+							gg := globalOf(a)
+							if gg == nil || ai >= len(sc.Params) {
+								continue
+							}
+							eachInstr(sc, func(bb *ssa.BasicBlock, j int, x ssa.Instruction) {
+								if isMethodCall(x, "sync", "Pool", method) && callArgs(x)[0] == ssa.Value(sc.Params[ai]) {
+									g = gg
+								}
+							})
 						}
 					}
 				}
 			})
 			return g
 		}
+		// helper the Acquire function delegates to (receives the pool and the key)
+		var acqHelper *ssa.Function
+		var acqHelperKeyIdx = -1
+		eachInstr(acq, func(b *ssa.BasicBlock, i int, in ssa.Instruction) {
+			if c, ok := in.(*ssa.Call); ok {
+				if sc := c.Call.StaticCallee(); sc != nil && p.isLibFn(sc) && sc != resetTo {
+					for ai, a := range c.Call.Args {
+						if a == ssa.Value(acq.Params[0]) && ai < len(sc.Params) {
+							acqHelper, acqHelperKeyIdx = sc, ai
+						}
+					}
+				}
+			}
+		})
 		ga, gp := poolOf(acq, "Get"), poolOf(put, "Put")
 		rc.Instance(sp.acq+"/"+sp.put, true, map[string]string{"acquire_pool": globalName(ga), "put_pool": globalName(gp)})
 		if ga == nil || gp == nil || ga != gp {
@@ -525,11 +562,17 @@ func checkPools(r *Run, rc *RuleCtx, T *types.Named, resetTo *ssa.Function) {
 			okAssert := false
 			eachInstr(fn, func(b *ssa.BasicBlock, i int, in ssa.Instruction) {
 				if c, ok := in.(*ssa.Call); ok {
-					if sc := c.Call.StaticCallee(); sc != nil && p.isLibFn(sc) && len(c.Call.Args) == 3 {
-						s, ok1 := constInt(c.Call.Args[1])
-						bl, ok2 := constInt(c.Call.Args[2])
-						if ok1 && ok2 && s == sp.size && bl == sp.blk {
-							okAssert = true
+					if sc := c.Call.StaticCallee(); sc != nil && p.isLibFn(sc) {
+						// the (size, blocksize) pair is passed as two consecutive constant arguments,
+						// to the assertion itself or to a helper that forwards them to it
+						for ai := 0; ai+1 < len(c.Call.Args); ai++ {
+							s, ok1 := constInt(c.Call.Args[ai])
+							bl, ok2 := constInt(c.Call.Args[ai+1])
+							if ok1 && ok2 && s == sp.size && bl == sp.blk {
+								if len(c.Call.Args) == 3 || forwardsToAssert(p, sc, ai) {
+									okAssert = true
+								}
+							}
 						}
 					}
 				}
@@ -551,6 +594,31 @@ func checkPools(r *Run, rc *RuleCtx, T *types.Named, resetTo *ssa.Function) {
 				}
 			}
 		})
+		if !okRekey && acqHelper != nil {
+			// the helper re-keys with the forwarded key on every path, and Acquire returns the helper's result
+			eachInstr(acqHelper, func(b *ssa.BasicBlock, i int, in ssa.Instruction) {
+				if c, ok := in.(*ssa.Call); ok && callsFn(c, resetTo) && c.Call.Args[1] == ssa.Value(acqHelper.Params[acqHelperKeyIdx]) {
+					okRekey = true
+					for _, ret := range returnsOf(acqHelper) {
+						if !instrDominates(c, ret) {
+							okRekey = false
+						}
+					}
+				}
+			})
+			if okRekey {
+				r.Analysed(acqHelper)
+				for _, ret := range returnsOf(acq) {
+					v := ret.Results[0]
+					if mi, ok := v.(*ssa.MakeInterface); ok {
+						v = mi.X
+					}
+					if c, ok := v.(*ssa.Call); !ok || !callsFn(c, acqHelper) {
+						okRekey = false
+					}
+				}
+			}
+		}
 		rc.Instance(sp.acq+"|rekey", true, nil)
 		if !okRekey {
 			rc.Violation(acq, acq.Pos(), "no re-key", sp.acq+" must call resetTo(key) on every path before returning the pooled object")
@@ -628,4 +696,23 @@ func poolNewOf(p *Prog, f *ssa.Function) *ssa.Global {
 		}
 	})
 	return res
+}
+
+// forwardsToAssert: helper g passes its parameters ai, ai+1 (size, blocksize) on to a module
+// function of three arguments (the size assertion).
+func forwardsToAssert(p *Prog, g *ssa.Function, ai int) bool {
+	if g == nil || g.Blocks == nil || ai+1 >= len(g.Params) {
+		return false
+	}
+	ok := false
+	eachInstr(g, func(b *ssa.BasicBlock, i int, in ssa.Instruction) {
+		if c, isC := in.(*ssa.Call); isC {
+			if sc := c.Call.StaticCallee(); sc != nil && p.isLibFn(sc) && len(c.Call.Args) == 3 {
+				if c.Call.Args[1] == ssa.Value(g.Params[ai]) && c.Call.Args[2] == ssa.Value(g.Params[ai+1]) {
+					ok = true
+				}
+			}
+		}
+	})
+	return ok
 }
